@@ -32,8 +32,9 @@ def replay(pid, r, rundir):
     fn = name.split('::')[-1]
     outdir = os.path.join(REPLAYS, pid)
     os.makedirs(outdir, exist_ok=True)
-    path = os.path.join(outdir, fn + '.rs')
-    meta_path = os.path.join(outdir, fn + '.json')
+    uniq = re.sub(r'[^A-Za-z0-9_]+', '_', name)
+    path = os.path.join(outdir, uniq + '.rs')
+    meta_path = os.path.join(outdir, uniq + '.json')
     failed = [dict(description=i['description'], file=i['file'], line=i['line'], function=i['function'],
                    property=i['property']) for i in (r.get('failed') or r.get('unsupported_failed') or [])]
     meta = dict(property=pid, harness=name, crate=crate, failed=failed, opts=r.get('opts'), time=time.ctime(),
@@ -45,6 +46,8 @@ def replay(pid, r, rundir):
            '--harness', name, '--exact']
     if crate != 'ext':
         cmd += ['-p', c['package']]
+    if c.get('features'):
+        cmd += ['--features', c['features']]
     o = r.get('opts', {})
     if o.get('unwind'):
         cmd += ['--default-unwind', str(o['unwind'])]
@@ -72,7 +75,7 @@ def replay(pid, r, rundir):
         json.dump(meta, open(meta_path, 'w'), indent=1, default=str)
         return dict(reproduced=False, path=meta_path, reason=meta['reason'])
     # qualify the harness path so the test can live in the playback module
-    modpath = 'crate::' + name if crate == 'ext' else 'super::' + fn
+    modpath = 'crate::' + name
     body = []
     names = []
     for t in tests:
@@ -92,10 +95,10 @@ def replay(pid, r, rundir):
     meta['path'] = path
     json.dump(meta, open(meta_path, 'w'), indent=1, default=str)
     ok, why = run_native(crate, path, names)
-    meta['reproduced'] = ok
+    meta['reproduced'] = bool(ok)
     meta['native_result'] = why
     json.dump(meta, open(meta_path, 'w'), indent=1, default=str)
-    return dict(reproduced=ok, path=path, reason=why)
+    return dict(reproduced=bool(ok), path=path, reason=why)
 
 
 def run_native(crate, path, names):
@@ -105,10 +108,12 @@ def run_native(crate, path, names):
     tdir = os.path.join(K.WORK, 'target-playback-' + crate)
     cwd = c['dir'] if crate == 'ext' else K.REPO
     verdicts = []
-    for prof in ([], ['--release']):
+    for prof in ([],):  # `cargo kani playback` (0.68) has no --release; Kani models the dev profile
         cmd = ['cargo', 'kani', 'playback', '-Z', 'concrete-playback'] + prof
         if crate != 'ext':
             cmd += ['-p', c['package']]
+        if c.get('features'):
+            cmd += ['--features', c['features']]
         cmd += ['--', 'kani_concrete_playback']
         env = _playback_env(crate, path)
         env['CARGO_TARGET_DIR'] = tdir
@@ -120,20 +125,23 @@ def run_native(crate, path, names):
             continue
         out = p.stdout
         open(path + ('.release' if prof else '.dev') + '.log', 'w').write(out[-20000:])
-        ran = re.search(r'test result: (\w+)\. (\d+) passed; (\d+) failed', out)
-        if not ran:
-            verdicts.append((prof, None, 'native build/run failed: ' + out[-600:].replace('\n', ' | ')))
+        tests = re.findall(r'^test \S*kani_concrete_playback\S* \.\.\. (ok|FAILED)', out, re.M)
+        if not tests or len(tests) < len(names):
+            verdicts.append((prof, None, 'native build/run failed (%d of %d playback tests ran): ' % (len(tests), len(names))
+                             + ' | '.join(l[:200] for l in out.splitlines() if l.startswith('error'))[:600]))
             continue
-        failed_n = int(ran.group(3))
-        msg = ''
+        failed_n = tests.count('FAILED')
+        msg = '%d of %d playback tests fail' % (failed_n, len(tests))
         m = re.search(r"panicked at ([^\n]*)\n([^\n]*)", out)
         if m:
-            msg = (m.group(1) + ' ' + m.group(2))[:300]
+            msg += ': ' + (m.group(1) + ' ' + m.group(2))[:300]
         verdicts.append((prof, failed_n > 0, msg))
     dev = verdicts[0]
     rel = verdicts[1] if len(verdicts) > 1 else (None, None, '')
     why = 'dev: %s %s; release: %s %s' % ('FAILS' if dev[1] else ('passes' if dev[1] is False else 'n/a'), dev[2],
                                           'FAILS' if rel[1] else ('passes' if rel[1] is False else 'n/a'), rel[2])
+    if dev[1] is None:
+        return None, why
     return bool(dev[1]) or bool(rel[1]), why
 
 
@@ -149,5 +157,8 @@ def rerun(pid, path):
     if ok:
         print('VIOLATION property=%s replay=%s' % (pid, path))
         return 1
+    if ok is None:
+        print('replay could not be run')
+        return 2
     print('replay does not fail on the current tree')
     return 0
